@@ -145,8 +145,13 @@ class MediaSegment(DashElement):
         if not self.elt.check_not_none(
                 moof, msg='Failed to find MOOF box'):
             return
-        self.seg_num = moof.mfhd.sequence_number
-        self.decode_time = moof.traf.tfdt.base_media_decode_time
+        try:
+            self.seg_num = moof.mfhd.sequence_number
+            self.decode_time = moof.traf.tfdt.base_media_decode_time
+        except Exception as err:
+            self.elt.add_error(
+                f'{self.name}: mfhd or tfdt box cannot be used: {err!r}')
+            return
         info = self.parent.init_segment.dash_representation
         if info.encrypted:
             self.check_saio_offset(moof)
@@ -238,6 +243,15 @@ class MediaSegment(DashElement):
             dest.write(body)
 
     def parse_data(self, body: bytes) -> mp4.Mp4Atom | None:
+        try:
+            return self.parse_segment_data(body)
+        except Exception as err:
+            # the MP4 parser can fail in many ways with a corrupt segment
+            self.log.warning('%s: failed to parse segment: %r', self.name, err)
+            self.elt.add_error(f'{self.name}: Failed to parse media segment: {err!r}')
+            return None
+
+    def parse_segment_data(self, body: bytes) -> mp4.Mp4Atom | None:
         src = io.BytesIO(body)
         options = {"strict": True, "lazy_load": True, "mode": "r"}
         info = self.parent.init_segment.dash_representation
